@@ -36,6 +36,7 @@ fn other_check(id: &str, tier: &str, seed: u64) -> Option<i32> {
         "C15" => Some(props::c15::run(tier, seed)),
         "C04" => Some(props::c04::run(tier, seed)),
         "C09" => Some(props::c09::run(tier, seed)),
+        "C11" => Some(props::c11::run(tier, seed)),
         _ => None,
     }
 }
@@ -101,7 +102,9 @@ fn main() {
             let id = args[2].as_str();
             let tier = args[3].as_str();
             let a = WorkerArgs { shard: args[4].parse().unwrap(), nshards: args[5].parse().unwrap(), budget_s: args[6].parse().unwrap(), seed: args[7].parse().unwrap(), validate_n: args[8].parse().unwrap() };
-            if id == "C09" {
+            if id == "C11" {
+                props::c11::worker_main(tier, a.shard, a.nshards, a.budget_s);
+            } else if id == "C09" {
                 props::c09::worker_main(tier, a.shard, a.nshards, a.seed, &args);
             } else if id == "C04" {
                 props::c04::worker_main(tier, a.shard, a.nshards, a.budget_s);
@@ -113,6 +116,7 @@ fn main() {
                 std::process::exit(2);
             }
         }
+        "rwlock-probe" => props::c11::rwlock_probe_child(),
         "bench" => {
             inst::set_config("regtest", true);
             let (scs, _) = hist_scenarios("C01", "quick").unwrap();
